@@ -21,6 +21,7 @@ from mc.refmodel import graphs as G
 ID = "C11"
 MANIFEST = {"engine": "E2"}
 RANGES = ((1, 1), (-2, -1), (-1, 1), (0.5, 2))
+DEGENERATE = ((1 / 3, 1 / 3), (0.45, 0.45), (-1.7, -1.7), (0.01, 0.01))
 DELTA = 2.0 ** -30
 _TIER = ["quick"]
 
@@ -42,6 +43,10 @@ def units(tier, seed):
     for p in (0, 1, 2, 3, 4) + ((5,) if tier == "thorough" else ()):
         for r in RANGES:
             out.append({"fn": "full", "p": p, "range": list(r), "seed_arg": None if p % 2 else 0})
+    # degenerate ranges w_min == w_max = c for constants that are not exactly representable: every weight must be exactly c
+    for r in DEGENERATE:
+        out.append({"fn": "full", "p": 4, "range": list(r), "seed_arg": 0})
+        out.append({"fn": "avg", "p": 4, "k": 2, "range": list(r), "seed_arg": None})
     return out
 
 
